@@ -621,6 +621,8 @@ def grammar_oracle(ops, out):
             ph = phase.get(key, "idle")
             if who and who.startswith("C") and ph == "ended":
                 return "client %s reported `%s` after its terminal event" % (who, l)
+            if who and who.startswith("C") and ph == "connected" and kind == "error" and len(p) > 3 and p[3] in ("version", "config", "full"):
+                return "client %s reported the handshake error `%s` for a connection it had already reported as established" % (who, l)
             if kind == "connect":
                 if ph == "connected":
                     return "%s: second Connect for address %s without a terminal event in between" % (who, addr)
@@ -887,6 +889,114 @@ def server_disconnect_oracle(ops, out):
                     if srv_now - t0 > 11 * (2000 + max_gap) + max_gap:
                         return "server still disconnecting address %s %d ms after the request (budget 22000 ms, largest step gap %d ms) without reporting Timeout" % (k, srv_now - t0, max_gap)
             last_state = cur
+    return None
+
+
+def _srv_entries(term):
+    cur = {}
+    for part in term.split()[4:]:
+        if "=" in part:
+            k, v = part.split("=", 1)
+            if k.isdigit():
+                cur[k] = v
+    return cur
+
+
+def pending_budget_oracle(ops, out):
+    """C10 / C17 / C18 (server side, handshake attempts): a pending entry (SYN accepted, ACK outstanding) is
+    forgotten once its retry budget is used up — it does not stay pending beyond 11 intervals of 2 s (plus the
+    slack the step cadence allows: every resend is scheduled from the step that performs it), and at most
+    1 + 10 SYN+ACK datagrams are sent to its address while it is pending."""
+    since, sent, last = {}, {}, {}
+    srv_now, last_step, max_gap = 0, None, 0
+    for (t, info, term) in ep_events(ops, out):
+        if t[0] in ("pfwd", "precv"):
+            k = t[1]
+            n_s = sum(1 for l in info if l.startswith("dgram S ") and len(l.split()) > 4 and l.split()[4] == "S")
+            if n_s and k in since:
+                sent[k] = sent.get(k, 0) + n_s
+                if sent[k] > 11:
+                    return "server sent %d SYN+ACK datagrams to the unverified address %s within one handshake attempt (budget: 1 + 10 resends)" % (sent[k], k)
+        if t[0] == "srvnew":
+            since, sent, last = {}, {}, {}
+            srv_now, last_step, max_gap = 0, None, 0
+        if t[0] == "srvstep":
+            srv_now = int(t[1])
+            if last_step is not None:
+                max_gap = max(max_gap, srv_now - last_step)
+            last_step = srv_now
+        if term and term.startswith("st clients="):
+            cur = _srv_entries(term)
+            for k, v in cur.items():
+                if v[:1] == "P" and last.get(k) != v:
+                    since[k] = srv_now
+                    sent[k] = 0
+            for k in list(since):
+                if cur.get(k, "")[:1] != "P":
+                    del since[k]
+            if t[0] == "srvstep":
+                for k, t0 in since.items():
+                    if srv_now - t0 > 11 * (2000 + max_gap) + max_gap:
+                        return ("server still holds the pending entry of address %s %d ms after accepting its connection request "
+                                "(budget 22000 ms, largest step gap %d ms): the handshake never timed out" % (k, srv_now - t0, max_gap))
+            last = cur
+    return None
+
+
+def keepalive_oracle(ops, out):
+    """C10 (keepalive clause), on `timers` cases of the idle kind only: keepalive enabled on both ends with an
+    interval of at most 5 s, active timeout 20 s, no application data at all, no datagram dropped after both ends
+    reported Connect, steps at most 3 s apart: then no Error(Timeout) is ever reported, however long the run."""
+    ka_ok = {}
+    established = set()
+    lossless_since = None
+    last_now = {}
+    for (t, info, term) in ep_events(ops, out):
+        if t[0] == "srvnew":
+            # srvnew max_total max_active errors msr mrr mps mra keepalive interval active_timeout t0
+            ka_ok["S"] = (t[8] == "1" and int(t[9]) <= 5000 and int(t[10]) == 20000)
+        if t[0] == "clinew":
+            ka_ok["C" + t[1]] = (t[7] == "1" and int(t[8]) <= 5000 and int(t[9]) == 20000)
+        if t[0] in ("clisend", "srvsend", "clidisc", "srvdisc", "srvdrop", "psend", "psendraw", "psendfix", "psendc"):
+            return None
+        if t[0] in ("clistep", "srvstep"):
+            who = "S" if t[0] == "srvstep" else "C" + t[1]
+            now = int(t[-1]) if t[0] == "srvstep" else int(t[2])
+            if who in last_now and now - last_now[who] > 3000:
+                return None
+            last_now[who] = now
+        if t[0] == "pfwd" and len(established) >= 2 and t[2] != "0":
+            return None
+        for l in info:
+            p = l.split()
+            if p[:2] == ["ev", "connect"]:
+                established.add(t[0][:3])
+            if p[:2] == ["ev", "error"] and len(p) > 3 and p[3] == "timeout" and len(established) >= 2:
+                if ka_ok and all(ka_ok.values()):
+                    return ("%s reported Error(Timeout) on an idle, loss-free connection with keepalive enabled on both ends "
+                            "(interval <= 5 s, active timeout 20 s)" % ("server" if t[0].startswith("srv") else "client"))
+    return None
+
+
+def quiescent_buffer_oracle(ops, out, endpoints=(0, 1)):
+    """C20 (returns to zero): at the end of a case that finishes with a long loss-free drain, an endpoint with
+    nothing queued, pending or awaiting retransmission reports send_buffer_size() == 0."""
+    drains = sum(1 for o in ops[-420:] if o.startswith("relay ") and o.split()[3:6] == ["0", "0", "0"])
+    if drains < 60:
+        return None
+    last = {}
+    for (t, info, term) in events(ops, out):
+        if term and term.startswith("st "):
+            st = parse_st(term)
+            if st:
+                try:
+                    last[endpoint_of(t)] = st
+                except (ValueError, IndexError):
+                    pass
+    for e in endpoints:
+        st = last.get(e)
+        if st and st["pend"] == 0 and st["sbs"] != 0:
+            return "endpoint %d: nothing is pending after a long loss-free drain, yet send_buffer_size() = %d" % (e, st["sbs"])
     return None
 
 
